@@ -28,6 +28,8 @@ func concDrain(args []string, out *bufio.Writer) {
 	fs.Parse(args)
 	if *backlogChild {
 		drainBacklog(&rng{s: scriptSeed(*seed, "concdrain-backlog", *from)}, out)
+		drainBurst(&rng{s: scriptSeed(*seed, "concdrain-burst", *from)}, out)
+		drainOrder(&rng{s: scriptSeed(*seed, "concdrain-order", *from)}, out)
 		return
 	}
 	for i := *from; i < *from+*n; i++ {
@@ -44,6 +46,10 @@ func concDrain(args []string, out *bufio.Writer) {
 			if err != nil {
 				fmt.Fprintf(out, "childfailed %v\n", err)
 			}
+			continue
+		}
+		if i%6 == 4 {
+			drainTail(r, out)
 			continue
 		}
 		maxSize := 2 + r.intn(6)
@@ -269,6 +275,217 @@ func drainBacklog(r *rng, out *bufio.Writer) {
 			break
 		}
 	}
+	c.StopAllGoroutines()
+	out.Flush()
+}
+
+// drainTail: single writes aimed at the very END of a concurrent maintenance run.  One goroutine calls CleanUp in a loop
+// (each call is a whole maintenance run that ends with the processing -> idle transition); the main goroutine issues one
+// Set per round after a varying busy-wait, so that over the rounds its push and its look at the drain status land before,
+// inside and after that final transition.  Then the CleanUp loop is stopped and, WITHOUT any further cache call, the event
+// must be processed (C14: a write that finds the maintenance finishing re-reads the status and schedules a successor).
+func drainTail(r *rng, out *bufio.Writer) {
+	maxSize := 4 + r.intn(8)
+	var atomicEv, delEv atomic.Int64
+	c := otter.Must(&otter.Options[int, int]{
+		MaximumSize:      maxSize,
+		OnAtomicDeletion: func(e otter.DeletionEvent[int, int]) { atomicEv.Add(1) },
+		OnDeletion:       func(e otter.DeletionEvent[int, int]) { delEv.Add(1) },
+	})
+	rounds := 150 + r.intn(150)
+	spinMax := 200 + r.intn(3000)
+	sink := 0
+	for round := 0; round < rounds; round++ {
+		var stop atomic.Bool
+		var started atomic.Int32
+		done := make(chan struct{})
+		go func() {
+			defer close(done)
+			for !stop.Load() {
+				c.CleanUp()
+				started.Add(1)
+			}
+		}()
+		for started.Load() < 2 {
+			runtime.Gosched()
+		}
+		spin := r.intn(spinMax)
+		for j := 0; j < spin; j++ {
+			sink += j
+		}
+		c.Set(round, round)
+		stop.Store(true)
+		<-done
+		var ds uint32
+		var wb uint64
+		var free bool
+		deadline := time.Now().Add(1500 * time.Millisecond)
+		for t := 0; ; t++ {
+			time.Sleep(20 * time.Microsecond)
+			ds, wb, free = otter.VerifDrainState(c)
+			if ds == 0 && wb == 0 && free && atomicEv.Load() == delEv.Load() {
+				break
+			}
+			if t >= 200 && time.Now().After(deadline) {
+				break
+			}
+			if t >= 200 {
+				time.Sleep(time.Millisecond)
+			}
+		}
+		size := c.EstimatedSize()
+		fmt.Fprintf(out, "quiescent round=%d writers=1 others=1 ds=%d wb=%d lockfree=%v atomic=%d delivered=%d size=%d max=%d tail=%d\n",
+			round, ds, wb, free, atomicEv.Load(), delEv.Load(), size, maxSize, spin)
+		if ds != 0 || wb != 0 {
+			break
+		}
+	}
+	_ = sink
+	c.StopAllGoroutines()
+}
+
+// burstRecorder pauses the maintenance goroutine at chosen evictions (RecordEviction is only called from the maintenance).
+type burstRecorder struct {
+	evictions atomic.Int64
+	pauseAt   [2]int64
+	paused    chan int64
+	resume    chan struct{}
+}
+
+func (r *burstRecorder) RecordHits(int)                  {}
+func (r *burstRecorder) RecordMisses(int)                {}
+func (r *burstRecorder) RecordLoadSuccess(time.Duration) {}
+func (r *burstRecorder) RecordLoadFailure(time.Duration) {}
+func (r *burstRecorder) RecordEviction(uint32) {
+	n := r.evictions.Add(1)
+	if n == r.pauseAt[0] || n == r.pauseAt[1] {
+		select {
+		case r.paused <- n:
+			<-r.resume
+		case <-time.After(2 * time.Second):
+		}
+	}
+}
+
+// drainBurst: a burst of writes arrives while ONE slow maintenance run is draining the write buffer, so that this single
+// run reaches its per-run drain limit with writes still queued; every writer has long returned (it saw a maintenance in
+// progress and only flagged it).  WITHOUT a further cache call everything buffered must be processed (C14: a run that
+// stops at its drain limit asks for a successor).  Maximum 0: every insertion is evicted as soon as it is drained, and
+// the eviction is where the maintenance is paused.
+func drainBurst(r *rng, out *bufio.Writer) {
+	procs := runtime.GOMAXPROCS(0)
+	rounded := 1
+	for rounded < procs {
+		rounded <<= 1
+	}
+	limit := 128 * rounded
+	second := limit/2 + r.intn(limit/4)
+	rec := &burstRecorder{pauseAt: [2]int64{1, int64(second)}, paused: make(chan int64), resume: make(chan struct{})}
+	c := otter.Must(&otter.Options[int, int]{MaximumSize: 1, StatsRecorder: rec})
+	c.SetMaximum(0)
+	key := 0
+	c.Set(key, key)
+	wait := func() bool {
+		select {
+		case <-rec.paused:
+			return true
+		case <-time.After(2 * time.Second):
+			return false
+		}
+	}
+	ok := wait()
+	if ok {
+		for i := 0; i < limit-8-r.intn(8); i++ {
+			key++
+			c.Set(key, key)
+		}
+		rec.resume <- struct{}{}
+		if wait() {
+			for i := 0; i < second-8-r.intn(8); i++ {
+				key++
+				c.Set(key, key)
+			}
+			rec.resume <- struct{}{}
+		}
+	}
+	total := key + 1
+	var ds uint32
+	var wb uint64
+	var free bool
+	deadline := time.Now().Add(2 * time.Second)
+	for t := 0; ; t++ {
+		time.Sleep(100 * time.Microsecond)
+		ds, wb, free = otter.VerifDrainState(c)
+		if ds == 0 && wb == 0 && free && rec.evictions.Load() == int64(total) {
+			break
+		}
+		if time.Now().After(deadline) {
+			break
+		}
+	}
+	size := c.EstimatedSize()
+	fmt.Fprintf(out, "quiescent round=0 writers=1 others=0 ds=%d wb=%d lockfree=%v atomic=%d delivered=%d size=%d max=0 burst=%d paused=%v procs=%d\n",
+		ds, wb, free, total, rec.evictions.Load(), size, total, ok, procs)
+	c.StopAllGoroutines()
+	out.Flush()
+}
+
+// drainOrder: ONE goroutine rewrites one key many more times than the write buffer holds while the executor is stalled
+// (submitted maintenance runs are kept, not run), so the buffer fills up and the writer, after its offers were refused,
+// performs the maintenance itself with its own event in hand.  Its older events still in the buffer must be processed
+// before that event (C16: events of one producer are consumed in submission order, also on the hand-over path): the
+// replaced values reach OnDeletion in the order they were written.
+func drainOrder(r *rng, out *bufio.Writer) {
+	procs := runtime.GOMAXPROCS(0)
+	rounded := 1
+	for rounded < procs {
+		rounded <<= 1
+	}
+	var mu sync.Mutex
+	var held []func()
+	var got []int
+	c := otter.Must(&otter.Options[int, int]{
+		MaximumSize: 100,
+		Executor: func(fn func()) {
+			mu.Lock()
+			held = append(held, fn)
+			mu.Unlock()
+		},
+		OnDeletion: func(e otter.DeletionEvent[int, int]) {
+			if e.Key == 1 {
+				got = append(got, e.Value)
+			}
+		},
+	})
+	total := 128*rounded*2 + r.intn(128*rounded)
+	for i := 0; i < total; i++ {
+		c.Set(1, i)
+	}
+	mu.Lock()
+	fns := held
+	held = nil
+	mu.Unlock()
+	for _, fn := range fns {
+		fn()
+	}
+	c.CleanUp()
+	mu.Lock()
+	fns = held
+	held = nil
+	mu.Unlock()
+	for _, fn := range fns {
+		fn()
+	}
+	bad, firstBad, prevAt := 0, -1, -1
+	for i, v := range got {
+		if i > 0 && v < got[i-1] {
+			bad++
+			if firstBad < 0 {
+				firstBad, prevAt = v, got[i-1]
+			}
+		}
+	}
+	fmt.Fprintf(out, "order writes=%d reported=%d bad=%d first=%d after=%d procs=%d\n", total, len(got), bad, firstBad, prevAt, procs)
 	c.StopAllGoroutines()
 	out.Flush()
 }
